@@ -91,6 +91,7 @@ End HasCoalesce.
 Definition field (obj : value) (f : bytes) : value :=
   match obj with
   | VMap m => match map_get m f with Some v => v | None => VErr (EAttribute f) end
+  | VErr e => VErr e                       (* a failed object stays the failure it is *)
   | _ => VErr (EAttribute f)
   end.
 
@@ -155,18 +156,21 @@ Section Paths.
 End Paths.
 
 (** Classification of the leaf by the configuration: the fold of [field] over
-    a path is the stored leaf when every step exists, and an absent-field
-    error as soon as a step is missing or meets a non-map. *)
-Theorem field_on_error_is_absent : forall e f, field (VErr e) f = VErr (EAttribute f).
+    a path is the stored leaf when every step exists; a missing step or a
+    non-map yields an absent-field error, and an error (such as an unbound
+    root, or a division by zero) is carried to the end unchanged. *)
+Theorem field_on_error_is_that_error : forall e f, field (VErr e) f = VErr e.
 Proof. reflexivity. Qed.
 
+Theorem path_from_error : forall fs e, fold_left field fs (VErr e) = VErr e.
+Proof. induction fs as [|f r IH]; intros e; [reflexivity|]. cbn [fold_left field]. apply IH. Qed.
+
 Theorem path_absent_propagates : forall fs v,
-  (forall m, v <> VMap m) -> fs <> [] ->
+  (forall m, v <> VMap m) -> is_err v = false -> fs <> [] ->
   exists f, fold_left field fs v = VErr (EAttribute f).
 Proof.
-  induction fs as [|f r IH]; intros v Hv Hne; [congruence|]. cbn [fold_left].
-  assert (Hf : field v f = VErr (EAttribute f)) by (destruct v; try reflexivity; exfalso; eapply Hv; reflexivity).
-  rewrite Hf. destruct r as [|g r'].
-  - exists f. reflexivity.
-  - apply IH; [intros m Hm; discriminate Hm|discriminate].
+  intros fs v Hv He Hne. destruct fs as [|f r]; [congruence|]. cbn [fold_left].
+  assert (Hf : field v f = VErr (EAttribute f)).
+  { destruct v; try reflexivity; try discriminate He. exfalso. eapply Hv. reflexivity. }
+  rewrite Hf, path_from_error. exists f. reflexivity.
 Qed.
